@@ -1683,9 +1683,15 @@ class C12(Check):
                         continue
                     try:
                         xv = [rnd(self.rng) for _ in range(mb.nx_opti)]
-                        fv = [rnd(self.rng) for _ in range(sum(s_.numel() for s_ in b.free))] if b.free else None
+                        fv = None
+                        if b.free:
+                            # a parameter that occurs in neither f nor g has no slot in opti.p; Opti still stores the value it was given
+                            fv = []
+                            with B.quiet():
+                                for s_ in b.free:
+                                    fv += [Fr(v) for v in ca.DM(mb.opti.debug.value(s_, mb.opti.initial())).full().flatten(order='F').tolist()]
                         got = [float(v) for v in B.eval_phys(b, xv, pcur, fv)['P'][0]]
-                    except (ZeroDivisionError, OverflowError, KeyError):
+                    except (ZeroDivisionError, OverflowError, KeyError, RuntimeError):
                         continue
                     self.count("child-parameter-values-read-back")
                     if len(got) != len(mb.child_pvals[i]) or any(abs(a - w) > 1e-12 for a, w in zip(got, mb.child_pvals[i])):
@@ -1726,8 +1732,11 @@ class C12(Check):
                     except (ZeroDivisionError, OverflowError, KeyError):
                         continue
                     self.count("instance-start-vs-direct-declaration")
-                    a_ = [float(v) for col in Xm for v in col]
-                    b__ = [float(v) for col in Xt for v in col]
+                    try:
+                        a_ = [float(v) for col in Xm for v in col]
+                        b__ = [float(v) for col in Xt for v in col]
+                    except OverflowError:
+                        continue
                     if sd['desc']['method']['kind'] == 'ss':
                         n0 = sum(sd['desc']['states'])
                         a_, b__ = a_[:n0], b__[:n0]
@@ -2012,7 +2021,7 @@ class C18(Check):
             if position == 'after-solve-new-method' and remethod is not None:
                 for o in (ocp, ref):
                     remethod(o)
-            if position in ('after-transcribe', 'after-solve') and len(ocp.parameters.get('', [])) >= 1 and self.rng.random() < 0.7:
+            if position in ('after-transcribe', 'after-solve') and len(ocp.parameters.get('', [])) >= 1:
                 # parameter values replaced while the problem is transcribed (the MPC pattern): one symbol per call, or one call on a
                 # concatenation of two symbols; the file must carry the NEW values
                 ps = ocp.parameters['']
